@@ -5,8 +5,9 @@ import fnmatch, glob, hashlib, json, os, shutil, struct, subprocess, sys, time
 ROOT = os.path.normpath(os.path.join(os.path.dirname(os.path.abspath(__file__)), '..'))
 REPO = os.environ.get('VERIF_REPO', '/repo')
 BUILD = os.path.join(ROOT, 'build')
-EVID = os.path.join(ROOT, 'evidence') if os.path.realpath(REPO) == '/repo' else os.path.join(BUILD, 'evidence-alt')
-FOUND = os.path.join(ROOT, 'replays', 'found') if os.path.realpath(REPO) == '/repo' else os.path.join(BUILD, 'found-alt')
+ALT = os.path.realpath(REPO) != '/repo' or bool(os.environ.get('VERIF_EVIDENCE_ALT'))  # runs against a deliberately modified tree never touch evidence/
+EVID = os.path.join(BUILD, 'evidence-alt') if ALT else os.path.join(ROOT, 'evidence')
+FOUND = os.path.join(BUILD, 'found-alt') if ALT else os.path.join(ROOT, 'replays', 'found')
 KNOWN = os.path.join(ROOT, 'known_findings.json')
 NCPU = os.cpu_count() or 16
 MAXC = 512
